@@ -37,7 +37,12 @@ let run_line (line : string) : unit =
            results := r :: !results
          end
        done;
-       Printf.printf "%s torn k=%s side=%s file=%s light=%s\n" case k side file (rle (List.rev !results))
+       Printf.printf "%s torn k=%s side=%s file=%s light=%s\n" case k side file (rle (List.rev !results));
+       (* the whole file, both directions *)
+       let c8 l = String.concat "," (List.map (fun c -> String.sub (hex_of_string (string_of_bytes c)) 0 8) l) in
+       let fwd = match open_kind lk bytes with Some l -> c8 l | None -> "err" in
+       let rev = match open_kind_rev lk bytes with Some l -> c8 l | None -> "err" in
+       Printf.printf "%s dirs k=%s side=%s file=%s fwd=%s rev=%s\n" case k side file fwd rev
      | _ -> Printf.printf "%s unmodelled\n" case)
   | _ :: case :: _ -> ()
   | _ -> ()
